@@ -161,8 +161,12 @@ class C08(Engine):
                     # directory names as old checkouts and archives have them: not valid UTF-8 (one raw byte, a lone surrogate
                     # in Python's str), non-ASCII, blanks, quotes, backslashes - the JSON output carries the full path
                     d = dn.choice(["caf\udce9", "d\u00edr\u4e16", "a b", "q\"uote", "back\\slash", "tab\there", "\udcff\udcfe"]) + str(j)
-                tree[d] = {P.files[fid]["name"]: "@" + fid}
-                argv.append(f"{d}/{P.files[fid]['name']}")
+                fname = P.files[fid]["name"]
+                if odd and dn.random() < 0.5:
+                    # ... and file names that are legal here but mean something to another operating system's path rules
+                    fname = dn.choice(["src\\", "c:", "..\\", "a\\b\\", "C:\\x\\"]) + fname
+                tree[d] = {fname: "@" + fid}
+                argv.append(f"{d}/{fname}")
             # the same source reached twice in one run: repeated path, another spelling, a directory plus a file in it
             r = rng.random()
             if r < 0.2:
